@@ -23,6 +23,16 @@ module-level table or constant": if the analysis accepts the program, a call of 
 documented as side-effect free, started in any well-formed heap with any arguments, by any
 execution, leaves every object that existed before the call (arguments, everything reachable
 from them, module-level tables, everything else) exactly as it was. -/
+/- Coverage of the proof.  `sound` rests on `sound_stmt` (Lemmas/EffectsSound.lean), an induction over the
+   derivation of `Exec` with one case per rule of the semantics: skip, seqN, seqX, scalar, alias, global, new, load,
+   store, callRet, callFall, callExc, iteL, iteR, whileDone, whileStep, whileExit, ret, raise — i.e. every
+   constructor of `Stmt` (skip, seq, scalar, alias, global, new, load, store, call, ite, while, ret, raise) and every
+   transfer rule of `aexec`, including the ones added since the first version: the `dead` state after return/raise,
+   the `exposed` phase of `astore` / `acall` (`AState.expose`, `AState.mark`, summaries with `exposes`) and the
+   receiver-attribute table.  What the translator added later (namedtuple / __slots__ holders, zip / enumerate as
+   values, walrus, slices, per-operator result types) is expressed with the SAME statement constructors (new + store
+   + load; the operator typing only prunes dispatch alternatives), so it needs no new case: the examples further
+   down pin each shape on a minimal accepted / rejected pair. -/
 theorem sound {P : Program} (hck : check P = true) {g : Nat} {fd : FunDecl} {h h' : Heap}
     {vals : List Val} {o : Outcome} (hg : P.funs[g]? = some fd) (hpure : fd.kind = .pure)
     (hw : WFHeap h) (hv : ∀ i, WFVal h.next (vals.getD i .scalar))
@@ -277,6 +287,112 @@ object is one module-level object shared by every call that omits the argument -
 example : check ⟨2, [⟨"f", 2, 3, blk [.append 1 0, .ret 1], .pure, ⟨[1], false, true, .param 1⟩⟩]⟩ = false := by decide
 example : check ⟨2, [⟨"_f", 2, 3, blk [.append 1 0, .ret 1], .helper, ⟨[1], false, true, .param 1⟩⟩,
     ⟨"caller", 1, 4, blk [.global 1 0, .call 2 0 [0, 1], .ret 2], .pure, ⟨[], false, true, .any⟩⟩]⟩ = false := by decide
+
+/-! ### Rejection before effects -/
+
+/-- "ill-typed or out-of-range arguments are rejected with TypeError or ValueError": whatever the first statement
+of a function does when it is accepted under the empty write set — in particular when it leaves through its
+`raise` — no object that existed when the call started has been written, not even the receiver of a mutator:
+the guard dominates every effect.  (A body execution that leaves inside its first statement has, by rule `seqX`,
+exactly that statement's final heap.) -/
+theorem guard_dominates_effects {P : Program} (hck : check P = true) {fd : FunDecl} {h h' : Heap}
+    {vals : List Val} {o : Outcome} (hok : guardHeadOk P fd = true)
+    (hw : WFHeap h) (hv : ∀ i, WFVal h.next (vals.getD i .scalar))
+    (hex : Exec P fd.body.head h (entryEnv fd.nparams vals) h' o) :
+    ∀ id, id < h.next → h'.obj id = h.obj id := by
+  simp only [guardHeadOk, Bool.and_eq_true] at hok
+  exact stmt_frame hck hok.2 hw hv hex
+
+/-- … and a rejected call as a whole: if the body is `guard; rest` and the execution leaves inside the guard,
+the heap is untouched. -/
+theorem rejected_call_changes_nothing {P : Program} (hck : check P = true) {fd : FunDecl} {a b : Stmt}
+    {h h' : Heap} {vals : List Val} {v : Val} {x : Bool} (hbody : fd.body = .seq a b)
+    (hok : guardHeadOk P fd = true) (hw : WFHeap h) (hv : ∀ i, WFVal h.next (vals.getD i .scalar))
+    (hex : Exec P a h (entryEnv fd.nparams vals) h' (.exit v x)) :
+    Exec P fd.body h (entryEnv fd.nparams vals) h' (.exit v x) ∧ ∀ id, id < h.next → h'.obj id = h.obj id := by
+  refine ⟨by rw [hbody]; exact Exec.seqX hex, ?_⟩
+  have : fd.body.head = a := by rw [hbody]; rfl
+  exact guard_dominates_effects hck hok hw hv (this ▸ hex)
+
+/-- On the current source: of the 182 functions whose first statement can raise (the `isinstance` / range guards at
+the head of the public functions), every one, `Earth.set` at most excepted, has a first statement that writes nothing that
+existed before the call.  (`Earth.set` is `if isinstance(e, Ellipsoid): self._ellip = e  else: raise TypeError`:
+its first statement contains the write, on the branch that does not raise.) -/
+theorem guards_dominate_current :
+    ((Current.program.funs.filter (fun fd => fd.body.head.hasRaise)).filter
+      (fun fd => !guardHeadOk Current.program fd)).all (fun fd => fd.name ∈ ["Earth.set"]) = true := by
+  decide +kernel
+
+/-- Which documented mutators can leave through an explicit `raise` AFTER having written their receiver (a
+half-written `self`): at most `CurveFitting.set`, `Epoch.set` and `Interpolation.set` — they clear the receiver
+first (`self._jde = 0.0`, `self._x = []`) and validate afterwards, so `e.set(2000, 13, 1)` raises ValueError and
+leaves `e.jde() == 0.0` (all three are flagged on the source of today, and the behaviour is confirmed on the
+implementation).  All the other mutators (and all constructors) write the receiver only on paths that do
+not reach a `raise` of their own.  (Syntactic, on the skeleton: `halfWrite`; exceptions propagating out of callees
+are not counted.) -/
+theorem mutators_half_written :
+    (Current.program.funs.filter (fun fd => fd.kind == .mutator && mayLeaveHalfWritten Current.program fd)).all
+      (fun fd => fd.name ∈ ["CurveFitting.set", "Epoch.set", "Interpolation.set"]) = true := by
+  decide +kernel
+
+/-- `halfWrite` discriminates: validate-then-write is clean, write-then-validate is flagged. -/
+example : mayLeaveHalfWritten ⟨2, [⟨"set", 2, 3, blk [.ite .raise .skip, .scalar 2, .store 0 (.field 0) 2], .mutator,
+    ⟨[0], true, false, .scal⟩⟩]⟩ ⟨"set", 2, 3, blk [.ite .raise .skip, .scalar 2, .store 0 (.field 0) 2], .mutator,
+    ⟨[0], true, false, .scal⟩⟩ = false := by decide
+example : mayLeaveHalfWritten ⟨2, []⟩ ⟨"set", 2, 3, blk [.scalar 2, .store 0 (.field 0) 2, .ite .raise .skip], .mutator,
+    ⟨[0], true, false, .scal⟩⟩ = true := by decide
+/-- a write on a branch that returns does not taint the raise of the other branch -/
+example : mayLeaveHalfWritten ⟨2, []⟩ ⟨"set", 2, 3, blk [.ite (blk [.scalar 2, .store 0 (.field 0) 2, .ret 2]) .skip,
+    .raise], .mutator, ⟨[0], true, false, .scal⟩⟩ = false := by decide
+/-- a guard that writes before raising is not a dominating guard -/
+example : guardHeadOk ⟨2, []⟩ ⟨"f", 2, 3, blk [.ite (blk [.scalar 2, .store 0 (.field 0) 2, .raise]) .skip, .ret 0],
+    .mutator, ⟨[0], true, false, .scal⟩⟩ = false := by decide
+example : guardHeadOk ⟨2, []⟩ ⟨"f", 2, 3, blk [.ite .raise .skip, .scalar 2, .store 0 (.field 0) 2], .mutator,
+    ⟨[0], true, false, .scal⟩⟩ = true := by decide
+
+/-! ### The shapes of the seeded changes of C20, and of the constructs added to the translator -/
+
+/-- C20-a (`kepler_equation` reduces its Angle argument in place, `mean_anomaly.to_positive()`): a side-effect-free
+function that calls a mutator on its parameter -/
+example : check ⟨2, [
+    ⟨"to_positive", 1, 2, blk [.scalar 1, .store 0 (.field 0) 1, .ret 0], .mutator, ⟨[0], true, false, .param 0⟩⟩,
+    ⟨"kepler_equation", 2, 4, blk [.call 2 0 [1], .scalar 3, .ret 3], .pure, ⟨[], true, false, .scal⟩⟩]⟩ = false := by
+  decide
+/-- … working on a copy (`m = Angle(mean_anomaly); m.to_positive()`) is accepted -/
+example : check ⟨2, [
+    ⟨"to_positive", 1, 2, blk [.scalar 1, .store 0 (.field 0) 1, .ret 0], .mutator, ⟨[0], true, false, .param 0⟩⟩,
+    ⟨"kepler_equation", 2, 5, blk [.new 2, .scalar 3, .store 2 (.field 0) 3, .call 4 0 [2], .ret 3], .pure,
+      ⟨[], true, false, .scal⟩⟩]⟩ = true := by decide
+/-- C20-d (`Interpolation.set` clears its lists in place, `del self._x[:]`, while the copy constructor shares
+them): the in-place clear is a store into an object merely loaded from the receiver -/
+example : check ⟨2, [exShare,
+    ⟨"set", 2, 4, blk [.load 3 0 (.field 1), .scalar 2, .setitem 3 2], .mutator, ⟨[0], false, true, .scal⟩⟩]⟩ = false := by
+  decide
+/- (C20-c, the function-attribute cache, is the `nutation_longitude` example above; C20-b, C20-e and C20-f are
+   value / totality defects, not effects: they are the business of the dynamic side.) -/
+
+/-- namedtuple / `__slots__` holder: a new object of the function holding loaded values; reading them back and
+returning is fine, mutating what a field holds is a write to the caller's object -/
+example : check ⟨3, [⟨"f", 2, 6, blk [.new 2, .store 2 (.field 1) 1, .scalar 3, .store 2 (.field 2) 3,
+    .load 4 2 (.field 1), .load 5 4 .elem, .ret 5], .pure, ⟨[], true, false, .any⟩⟩]⟩ = true := by decide
+example : check ⟨3, [⟨"f", 2, 6, blk [.new 2, .store 2 (.field 1) 1, .load 4 2 (.field 1), .append 4 0], .pure,
+    ⟨[], false, false, .any⟩⟩]⟩ = false := by decide
+/-- … a holder of new closed values may be mutated through (`box = _Box([1.0, 2.0], 2); box.items.append(3.0)`) -/
+example : check ⟨3, [⟨"f", 1, 5, blk [.new 1, .new 2, .store 2 (.field 1) 1, .load 3 2 (.field 1), .scalar 4,
+    .append 3 4], .pure, ⟨[], true, false, .scal⟩⟩]⟩ = true := by decide
+/-- `rows = zip(NAMES, ROWS)` as a value: a new sequence of new tuples holding elements of module tables; iterating
+and reading is fine, `row.append(..)` on an element is a write to the table -/
+example : check ⟨2, [⟨"f", 0, 8, blk [.global 0 3, .global 1 4, .new 2, .new 3, .load 4 0 .elem, .append 3 4,
+    .load 4 1 .elem, .append 3 4, .append 2 3, .while (blk [.load 5 2 .elem, .load 6 5 .elem]), .scalar 7, .ret 7],
+    .pure, ⟨[], true, false, .scal⟩⟩]⟩ = true := by decide
+example : check ⟨2, [⟨"f", 0, 8, blk [.global 0 3, .global 1 4, .new 2, .new 3, .load 4 0 .elem, .append 3 4,
+    .load 4 1 .elem, .append 3 4, .append 2 3, .while (blk [.load 5 2 .elem, .load 6 5 .elem, .scalar 7, .append 6 7])],
+    .pure, ⟨[], false, false, .scal⟩⟩]⟩ = false := by decide
+/-- a slice of a module table (`part = ROWS[:1]`): the new list may be appended to, its rows may not -/
+example : check ⟨2, [⟨"f", 0, 5, blk [.global 0 3, .new 1, .load 2 0 .elem, .append 1 2, .scalar 3, .append 1 3],
+    .pure, ⟨[], false, false, .scal⟩⟩]⟩ = true := by decide
+example : check ⟨2, [⟨"f", 0, 5, blk [.global 0 3, .new 1, .load 2 0 .elem, .append 1 2, .load 4 1 .elem, .scalar 3,
+    .append 4 3], .pure, ⟨[], false, false, .scal⟩⟩]⟩ = false := by decide
 
 /-- heap with the source object 0 (attribute 1 -> list 1) and its list 1 -/
 def exHeap : Heap := ⟨2, fun i k => if i = 0 ∧ k = 1 then .ref 1 else .scalar⟩
